@@ -601,6 +601,54 @@ def rewrite_mut_self(ft, ads):
     ads.append({"rule": "D16", "what": "`mut self` parameter rebound as a local (`let mut d16_self = self;`), body uses d16_self"})
 
 
+def hoist_loop_temporaries(ft, ads):
+    """D17: `for X in CALL(..).iter() { BODY }` — Verus' for-loop encoding binds the iterator in a `let`, which ends the lifetime
+    of the temporary CALL(..) too early (E0716).  The temporary is bound explicitly:
+        { let d17_tN = CALL(..); for X in d17_tN.iter() { BODY } }
+    Rust extends the temporary's lifetime over the whole loop anyway, so behaviour is unchanged."""
+    n = 0
+    while True:
+        sig = ft.sig
+        hit = None
+        for k, t in enumerate(sig):
+            if not (t.kind == "ident" and t.text == "for"):
+                continue
+            m = k + 1
+            while m < len(sig) and not (sig[m].kind == "ident" and sig[m].text == "in"):
+                if sig[m].text in OPEN:
+                    m = match_close(sig, m)
+                m += 1
+            if m >= len(sig):
+                continue
+            b = m + 1
+            while b < len(sig) and sig[b].text != "{":
+                if sig[b].text in "([":
+                    b = match_close(sig, b)
+                b += 1
+            if b >= len(sig):
+                continue
+            # iterated expression tokens: m+1 .. b-1 ; look for `<E> . iter ( )` with E ending in `)`
+            if b - (m + 1) >= 5 and [u.text for u in sig[b - 4:b]] == [".", "iter", "(", ")"] and sig[b - 5].text == ")" \
+                    and not sig[m + 1].text.startswith("d17_"):
+                hit = (k, m, b)
+                break
+        if hit is None:
+            break
+        k, m, b = hit
+        e_s, e_e = sig[m + 1].s, sig[b - 5].e
+        expr = ft.text[e_s:e_e]
+        bclose = match_close(sig, b)
+        tmp = f"d17_t{n}"
+        ft.edits.append((sig[bclose].e, 0, " }"))
+        ft.edits.append((e_s, e_e - e_s, tmp))
+        ft.edits.append((sig[k].s, 0, f"{{ let {tmp} = {expr}; "))
+        ft.apply_edits()
+        ft.relex()
+        n += 1
+    if n:
+        ads.append({"rule": "D17", "what": f"{n} loop(s) over `call(..).iter()`: the temporary is bound by an explicit let around the loop"})
+
+
 def adapt_function(text, where, subs, report):
     ft = FnText(text, where)
     ft.relex()
@@ -608,6 +656,7 @@ def adapt_function(text, where, subs, report):
     normalise_bool_assign(ft, ads)
     split_or_guard_arms(ft, ads)
     desugar_enumerate_loops(ft, ads)
+    hoist_loop_temporaries(ft, ads)
     if 'fn __fragment' not in text:
         rewrite_mut_self(ft, ads)
     # nested fn items with their own contracts (D3 applied recursively)
